@@ -197,14 +197,18 @@ impl Prop for C01 {
         "exploration"
     }
     fn rule(&self, _: &Ctx) -> String {
-        "block = entity length x chunk plan; inside: methods {GET,HEAD,POST} x Range values (boundary positions for that length, multi, unsatisfiable, garbage, >64-bit) x conditional-header combinations; contract-honouring entities. Non-trivial = distinct (request, entity, plan) whose 200/206 body delivered >= 1 byte and was compared with Content-Length and the exact size hint".into()
+        "block = entity length x chunk plan (plus bodies of 4 MiB + 1 .. 70 MiB drained completely); inside: methods {GET,HEAD,POST} x Range values (boundary positions for that length, multi, unsatisfiable, garbage, >64-bit) x conditional-header combinations; contract-honouring entities. Non-trivial = distinct (request, entity, plan) whose 200/206 body delivered >= 1 byte and was compared with Content-Length and the exact size hint".into()
     }
     fn n_blocks(&self, ctx: &Ctx) -> usize {
-        let s = c01_space(ctx);
-        s.lens.len() * s.plans.len()
+        c01_n_blocks(ctx) + long_body_n(ctx)
     }
     fn run_block(&self, b: usize, sink: &mut Sink) {
-        c01_block(b, sink, &c01_judge);
+        let n = c01_n_blocks(sink.ctx);
+        if b >= n {
+            long_body_block(b - n, sink, &c01_judge);
+        } else {
+            c01_block(b, sink, &c01_judge);
+        }
     }
     fn replay(&self, case: &Value, sink: &mut Sink) {
         replay_serve(&c01_judge, case, sink);
@@ -262,6 +266,45 @@ pub fn c01_block(b: usize, sink: &mut Sink, judge: &ServeJudge) {
                     exec(&c, sink, judge);
                 }
             }
+        }
+    }
+}
+
+/// Bodies of more than 4 MiB, drained completely (the ordinary workload stops at 64-256 KiB):
+/// whole entity, one long range, a range that ends exactly where a 64 KiB chunk ends, two long parts.
+pub fn long_body_n(ctx: &Ctx) -> usize {
+    if ctx.leg.slow() { 0 } else if thorough(ctx) { 5 } else { 4 }
+}
+
+pub fn long_body_block(i: usize, sink: &mut Sink, judge: &ServeJudge) {
+    const M4: u64 = 4 * 1024 * 1024;
+    let len = [M4 + 1, M4 + 65_536, 6_000_000, 20_000_000, 70 * 1024 * 1024][i];
+    let plans = [
+        ChunkPlan::default(),
+        ChunkPlan { sizes: vec![Sz::Abs(65_536), Sz::Abs(1)], pend_mask: 0, pend_period: 0, hint_exact: true },
+        ChunkPlan { sizes: vec![Sz::Abs(65_536)], pend_mask: 0b1, pend_period: 32, hint_exact: false },
+    ];
+    for (pi, plan) in plans.iter().enumerate() {
+        let ranges: Vec<Option<String>> = vec![
+            None,
+            Some(format!("bytes=7-{}", len - 1)),
+            Some(format!("bytes=0-{}", M4 + 65_535)),
+            Some(format!("bytes=0-{},{}-{}", len / 3, len / 2, len / 2 + len / 4)),
+        ];
+        for (ri, r) in ranges.iter().enumerate() {
+            if len > 30_000_000 && (pi > 0 || ri > 1) {
+                continue;
+            }
+            let mut ent = default_ent(len);
+            ent.plan = plan.clone();
+            let mut c = ServeCase::get(ent);
+            c.cap = len + 1024;
+            c.extra_polls = 1;
+            if let Some(r) = r {
+                c.hdrs.push(("range".into(), r.clone().into_bytes()));
+            }
+            exec(&c, sink, judge);
+            sink.count("long_bodies_drained");
         }
     }
 }
@@ -399,12 +442,17 @@ impl Prop for C02 {
     }
     fn n_blocks(&self, ctx: &Ctx) -> usize {
         let s = c01_space(ctx);
-        (s.lens.len() + 12) * s.plans.len() + if thorough(ctx) && !ctx.leg.slow() { 256 } else { 16 }
+        (s.lens.len() + 12) * s.plans.len() + if thorough(ctx) && !ctx.leg.slow() { 256 } else { 16 } + long_body_n(ctx)
     }
     fn run_block(&self, b: usize, sink: &mut Sink) {
         let ctx = sink.ctx.clone();
         let s = c01_space(&ctx);
         let np = s.plans.len();
+        let n_before_long = (s.lens.len() + 12) * np + if thorough(&ctx) && !ctx.leg.slow() { 256 } else { 16 };
+        if b >= n_before_long {
+            long_body_block(b - n_before_long, sink, &c02_judge);
+            return;
+        }
         if b >= (s.lens.len() + 12) * np {
             // seeded random lengths, ranges and chunk plans
             let mut rng = Rng::from_parts(ctx.seed, &[2, b as u64]);
@@ -736,8 +784,16 @@ fn c03_space(ctx: &Ctx) -> C03Space {
         }
     }
     blocks.push((3, 0, 0));
+    // requests with very many specs (kind 4: a = index into MANY_LENS)
+    if !ctx.leg.slow() {
+        for (i, _) in C03_MANY_LENS.iter().enumerate() {
+            blocks.push((4, i as u64, 0));
+        }
+    }
     C03Space { blocks }
 }
+
+const C03_MANY_LENS: [u64; 3] = [4_000_000, 1 << 32, u64::MAX];
 
 pub const C03_THRESHOLD_LENS: [u64; 5] = [1000, 5000, 1_000_000, 1 << 63, u64::MAX];
 
@@ -847,7 +903,7 @@ impl Prop for C03 {
         "exploration"
     }
     fn rule(&self, ctx: &Ctx) -> String {
-        format!("requests carrying only Range; every fifth one again for an entity with ETag and modification time next to one header that must not change the outcome (passing If-Match / If-None-Match / If-Unmodified-Since / If-Modified-Since, strongly matching If-Range). (a) exhaustive: entity lengths 1..={}, all sets of 1..{} specs in the three forms with positions 0..=L+2, separators ',' ', ' ',\\t'; (b) boundary: lengths {:?} with positions {{0,1,2,L-2..L+2,L/2,2^32,2^63,2^64-2,2^64-1,2^64,10^30}}, 1..4 specs; (c) multipart threshold sweep on L in {{1000,5000,10^6,2^63,2^64-1}} with 2..8 ranges around the 'plus 80 each under half' and 'sum >= L' lines and just inside 'sum + 80n < L', for entities with 0 / 80 / 250 / 1000 header bytes; (d) near-misses outside the grammar. Non-trivial = distinct (Range value, L) that is a grammatical bytes= set and was compared with the RFC 7233 model (status, Content-Range, parsed multipart ranges)",
+        format!("requests carrying only Range; every fifth one again for an entity with ETag and modification time next to one header that must not change the outcome (passing If-Match / If-None-Match / If-Unmodified-Since / If-Modified-Since, strongly matching If-Range). (a) exhaustive: entity lengths 1..={}, all sets of 1..{} specs in the three forms with positions 0..=L+2, separators ',' ', ' ',\\t'; (b) boundary: lengths {:?} with positions {{0,1,2,L-2..L+2,L/2,2^32,2^63,2^64-2,2^64-1,2^64,10^30}}, 1..4 specs; (c) multipart threshold sweep on L in {{1000,5000,10^6,2^63,2^64-1}} with 2..8 ranges around the 'plus 80 each under half' and 'sum >= L' lines and just inside 'sum + 80n < L', for entities with 0 / 80 / 250 / 1000 header bytes; (d) near-misses outside the grammar; (e) requests with 21 .. 5000 specs (disjoint, chained overlaps, descending, identical, nested, shuffled chains, pseudo-random overlaps) on entities of 4 MB, 2^32 and 2^64-1 bytes. Non-trivial = distinct (Range value, L) that is a grammatical bytes= set and was compared with the RFC 7233 model (status, Content-Range, parsed multipart ranges)",
             if thorough(ctx) { 8 } else { 5 }, if thorough(ctx) { 3 } else { 2 }, C03_BOUNDARY_LENS)
     }
     fn n_blocks(&self, ctx: &Ctx) -> usize {
@@ -956,6 +1012,20 @@ impl Prop for C03 {
             2 => {
                 for c in c03_threshold_cases(C03_THRESHOLD_LENS[x as usize], y) {
                     exec(&c, sink, &c03_judge);
+                }
+            }
+            4 => {
+                let l = C03_MANY_LENS[x as usize];
+                for n in crate::gen::MANY_COUNTS {
+                    for layout in 0..crate::gen::MANY_LAYOUTS {
+                        let ent = EntSpec { len: l, hdrs: if layout == 1 { vec![("content-type".into(), b"text/plain".to_vec())] } else { vec![] }, ..Default::default() };
+                        let mut c = ServeCase::get(ent);
+                        c.cap = 1 << 23; // the whole multipart body, so that every part is read back
+                        c.extra_polls = 0;
+                        c.hdrs.push(("range".into(), crate::gen::many_ranges(l, n, layout)));
+                        exec(&c, sink, &c03_judge);
+                        sink.count("many_spec_requests");
+                    }
                 }
             }
             _ => {
@@ -1586,6 +1656,20 @@ pub fn c06_block(b: usize, sink: &mut Sink, judge: &ServeJudge) {
         starts.push(len / 2);
         // one request with very many ranges (spills every small-vector optimisation)
         if len >= 100_000 && !ctx.leg.slow() {
+            for (n_many, layout) in [(1025u64, 0u8), (300, 1), (2000, 2), (40, 4), (1024, 3), (64, 5), (100, 6)] {
+                if len < 4_000_000 {
+                    continue;
+                }
+                let ent = EntSpec { len, etag: Some(b"\"v1\"".to_vec()), mtime: None, hdrs: hdrs.clone(), plan: plans[(n_many as usize) % plans.len()].clone(), fault: None, slow_calls: false, content_mode: 0 };
+                if hdrs.iter().map(|(k, v)| k.len() + v.len()).sum::<usize>() > 1000 {
+                    continue; // 2000 parts x a 4 KiB header each would no longer be smaller than the entity
+                }
+                let mut c = ServeCase::get(ent);
+                c.cap = 1 << 23;
+                c.hdrs.push(("range".into(), crate::gen::many_ranges(len, n_many, layout)));
+                exec(&c, sink, judge);
+                sink.count("many_part_requests");
+            }
             for n_many in [17usize, 64, 200] {
                 let step = (len / 2 / n_many as u64).min(400);
                 if step < 90 {
@@ -1661,10 +1745,12 @@ pub fn c06_block(b: usize, sink: &mut Sink, judge: &ServeJudge) {
                     c.hdrs.push(("if-range".into(), b"\"v1\"".to_vec()));
                 }
                 if variant == 2 {
-                    let (k, v): (&str, Vec<u8>) = match (set_i / 3) % 4 {
+                    let (k, v): (&str, Vec<u8>) = match (set_i / 3) % 6 {
                         0 => ("if-match", b"*".to_vec()),
                         1 => ("if-none-match", b"\"nope\", W/\"v1x\"".to_vec()),
                         2 => ("if-match", b"\"zz\", \"v1\"".to_vec()),
+                        3 => ("if-match", b"\"v1\"".to_vec()),
+                        4 => ("if-modified-since", fmt_date(FIXED_SEC - 1, DateStyle::Imf).into_bytes()),
                         _ => ("if-unmodified-since", fmt_date(FIXED_SEC + 1, DateStyle::Imf).into_bytes()),
                     };
                     c.hdrs.insert(0, (k.into(), v));
@@ -2115,7 +2201,7 @@ impl Prop for C13 {
         "exploration"
     }
     fn rule(&self, _: &Ctx) -> String {
-        "seeded random requests: method from 14 standard/extension tokens; 0..4 of the six request headers, each 1..3 times, values = grammar-derived (C03-C05 generators), their byte mutations (drop/duplicate/insert from '\"-,=*W/;\\t +0-9', splices), boundary numbers (2^63-1 .. 10^30), arbitrary HeaderValue bytes incl. 0x80-0xFF; entity length {0,1,10,240,1000,2^32,2^63,2^64-1} x ETag/mtime presence; plus the deterministic product method x single hostile header. Non-trivial = distinct (method, headers, entity shape) with a header or a non-GET method, for which no panic, an allowed status and (non-GET/HEAD) 405+Allow+no entity read were checked".into()
+        "seeded random requests: method from 14 standard/extension tokens; 0..4 of the six request headers, each 1..3 times, values = grammar-derived (C03-C05 generators), their byte mutations (drop/duplicate/insert from '\"-,=*W/;\\t +0-9', splices), boundary numbers (2^63-1 .. 10^30), arbitrary HeaderValue bytes incl. 0x80-0xFF; entity length {0,1,10,240,1000,2^32,2^63,2^64-1} x ETag/mtime presence; plus the deterministic product method x single hostile header, and Range values with 21 .. 5000 specs in seven layouts (disjoint, chained overlaps, descending, identical, nested, shuffled chains, pseudo-random overlaps). Non-trivial = distinct (method, headers, entity shape) with a header or a non-GET method, for which no panic, an allowed status and (non-GET/HEAD) 405+Allow+no entity read were checked".into()
     }
     fn n_blocks(&self, ctx: &Ctx) -> usize {
         if ctx.leg.slow() { 16 } else { 256 }
@@ -2131,6 +2217,23 @@ impl Prop for C13 {
                 for c in c03_threshold_cases(l, n) {
                     exec(&c, sink, &c13_judge);
                     sink.count("multipart_limit_cases");
+                }
+            }
+        }
+        if b == C13_METHODS.len() + C03_THRESHOLD_LENS.len() {
+            // requests with very many ranges, every layout
+            for l in [4_000_000u64, u64::MAX] {
+                for n in crate::gen::MANY_COUNTS {
+                    for layout in 0..crate::gen::MANY_LAYOUTS {
+                        for m in ["GET", "HEAD"] {
+                            let mut c = ServeCase::get(EntSpec { len: l, etag: Some(b"\"v1\"".to_vec()), mtime: Some((FIXED_SEC, 0)), ..Default::default() });
+                            c.method = m.into();
+                            c.cap = 1 << 12;
+                            c.hdrs.push(("range".into(), crate::gen::many_ranges(l, n, layout)));
+                            exec(&c, sink, &c13_judge);
+                            sink.count("many_spec_requests");
+                        }
+                    }
                 }
             }
         }
